@@ -33,7 +33,7 @@ ASSUMPTIONS = [
     "errors (calibration / training failure) are counted, not demanded; crashes are violations",
 ]
 
-DEFAULT = dict(folds=3, cap=None, workers=1, seed=1, est="linear", key=2, files="1", fmt="pin")
+DEFAULT = dict(folds=3, cap=None, workers=1, seed=1, est="linear", key=2, files="1", fmt="pin", pred_chunk=None, read_chunk=None)
 DEVS = (
     [("folds", f) for f in (2, 4, 5, 6)]
     + [("cap", c) for c in ("small", "half", "large")]
@@ -43,6 +43,9 @@ DEVS = (
     + [("key", k) for k in (1, 3, 4)]
     + [("files", f) for f in ("2eq", "2uneq", "3")]
     + [("fmt", "parquet")]
+    # streaming chunk sizes: a prediction chunk may then hold no PSM of some fold, a training read chunk cuts spectra
+    + [("pred_chunk", c) for c in (3, 10)]
+    + [("read_chunk", 7)]
 )
 
 
@@ -84,6 +87,13 @@ def run_brew(cfg, frames, paths, labels_override=None):
     total = sum(len(df) for df, _ in frames)
     cap = {None: None, "small": max(4, total // 5), "half": total // 2, "large": total * 2}[cfg["cap"]]
     model = make_model(cfg["est"], first_only=True)
+    ch = dict(DEFAULT_CHUNKS)
+    if cfg.get("pred_chunk"):
+        ch["CHUNK_SIZE_ROWS_PREDICTION"] = cfg["pred_chunk"]
+    if cfg.get("read_chunk"):
+        ch["CHUNK_SIZE_READ_ALL_DATA"] = cfg["read_chunk"]
+    if not cfg.get("_e2"):
+        set_chunks(**ch)
     return mokapot.brew(dsets, model=model, test_fdr=0.5, folds=cfg["folds"], max_workers=cfg["workers"],
                         rng=cfg["seed"], subset_max_train=cap), cap
 
@@ -298,6 +308,7 @@ def _outcome(res):
 
 def e2_body(case, work):
     cfg, frames, paths = build_inputs(case, work)
+    cfg["_e2"] = True
     cfg["workers"] = case.get("e2_workers", 3)
     set_chunks(CHUNK_SIZE_READ_ALL_DATA=case.get("read_chunk", 18), CHUNK_SIZE_ROWS_PREDICTION=case.get("pred_chunk", 28))
 
